@@ -340,52 +340,24 @@ func runC19(c *Ctx) {
 			c.obI("R19.2", lk, "handler-table-upper-cases", okK, "the handler table is read with the upper-cased method", "")
 		}
 	}
-	// fresh scheme list per alternative
-	ba := p.Fn("(*rt/middleware.defaultRouteBuilder).buildAuthenticators")
-	reqCalls := callsIn(ba, "(*github.com/go-openapi/analysis.Spec).SecurityRequirementsFor")
-	if len(reqCalls) == 1 {
-		outer := sliceLoops(ba, vIs(reqCalls[0].Value()))
-		for _, st := range fieldStores(ba, routeAuthT, "Schemes") {
-			okF := len(outer) == 1
-			if okF {
-				okF = false
-				// walk the append chain to its base allocation, looking through re-slicing
-				seen := map[ssa.Value]bool{}
-				var bases []ssa.Value
-				var walk func(v ssa.Value)
-				walk = func(v ssa.Value) {
-					if seen[v] {
-						return
-					}
-					seen[v] = true
-					switch x := v.(type) {
-					case *ssa.Phi:
-						for _, e := range x.Edges {
-							walk(e)
-						}
-					case *ssa.Call:
-						if calleeName(&x.Call) == "builtin append" {
-							walk(x.Call.Args[0])
-							return
-						}
-						bases = append(bases, v)
-					case *ssa.Slice:
-						walk(x.X)
-					default:
-						bases = append(bases, v)
-					}
-				}
-				walk(st.Val)
-				okF = len(bases) > 0
-				for _, b := range bases {
-					ms, isMk := b.(*ssa.MakeSlice)
-					if !isMk || !outer[0].Header.Dominates(ms.Block()) || ms.Block() == outer[0].Header || !reachableFrom(ms.Block(), outer[0].Header) {
-						okF = false
-					}
-				}
+	ruleAlternativeStorageFresh(c, "R19.2")
+	// the handler table served from is keyed exactly like the registry it is built from: by the verbatim path
+	{
+		nr := p.Fn("rt/middleware.newRoutableUntypedAPI")
+		n := 0
+		for _, in := range instrs(nr) {
+			mu, ok := in.(*ssa.MapUpdate)
+			if !ok || typeStr(mu.Map.Type()) != "map[string]net/http.Handler" {
+				continue
 			}
-			c.obI("R19.2", st, "scheme-list-fresh-per-alternative", okF, "each alternative's Schemes list is built on a slice allocated inside that alternative's iteration (alternatives never share backing storage, so an earlier alternative's scheme names cannot be overwritten by a later one's)", "the scheme list is built on storage that outlives the iteration (hoisted / re-sliced buffer)")
+			n++
+			okK := false
+			if ex, isEx := mu.Key.(*ssa.Extract); isEx && ex.Index == 1 {
+				_, okK = ex.Tuple.(*ssa.Next)
+			}
+			c.obI("R19.2", mu, "handler-table-path-verbatim", okK, "the per-method handler table is keyed by the operation's path exactly as the registry enumerates it (HandlerFor looks the router's path up verbatim)", "key "+describe(mu.Key))
 		}
+		c.obF("R19.2", nr, "fills-handler-table", n >= 1, "newRoutableUntypedAPI fills the handler table", "")
 	}
 	// the request-time tables of a route are built from the route's own final lists (consumers from consumes, producers from produces)
 	ruleAddRouteDefaults(c, "R19.2", "Consume")
@@ -487,4 +459,71 @@ func allCallsShallow(f *ssa.Function) []ssa.CallInstruction {
 		}
 	}
 	return out
+}
+
+// ruleAlternativeStorageFresh (shared by C02 and C19): the per-alternative scheme list and scopes table built by
+// buildAuthenticators live in storage allocated inside that alternative's loop iteration.
+func ruleAlternativeStorageFresh(c *Ctx, rule string) {
+	p := c.P
+	ba := p.Fn("(*rt/middleware.defaultRouteBuilder).buildAuthenticators")
+	reqCalls := callsIn(ba, "(*github.com/go-openapi/analysis.Spec).SecurityRequirementsFor")
+	if len(reqCalls) == 1 {
+		outer := sliceLoops(ba, vIs(reqCalls[0].Value()))
+		// the scheme->scopes table of an alternative is a map made inside that alternative's iteration
+		for _, st := range fieldStores(ba, routeAuthT, "Scopes") {
+			okM := len(outer) == 1
+			if okM {
+				os := originsOf(st.Val)
+				okM = len(os) > 0
+				for _, o := range os {
+					mm, isMk := o.V.(*ssa.MakeMap)
+					if !isMk || !outer[0].Header.Dominates(mm.Block()) || mm.Block() == outer[0].Header || !reachableFrom(mm.Block(), outer[0].Header) {
+						okM = false
+					}
+				}
+			}
+			c.obI(rule, st, "scopes-table-fresh-per-alternative", okM, "each alternative's scheme->scopes table is a map made inside that alternative's iteration (a later alternative naming the same scheme cannot overwrite the scopes an earlier one requires)", "the scopes table outlives the iteration: alternatives share it")
+		}
+		for _, st := range fieldStores(ba, routeAuthT, "Schemes") {
+			okF := len(outer) == 1
+			if okF {
+				okF = false
+				// walk the append chain to its base allocation, looking through re-slicing
+				seen := map[ssa.Value]bool{}
+				var bases []ssa.Value
+				var walk func(v ssa.Value)
+				walk = func(v ssa.Value) {
+					if seen[v] {
+						return
+					}
+					seen[v] = true
+					switch x := v.(type) {
+					case *ssa.Phi:
+						for _, e := range x.Edges {
+							walk(e)
+						}
+					case *ssa.Call:
+						if calleeName(&x.Call) == "builtin append" {
+							walk(x.Call.Args[0])
+							return
+						}
+						bases = append(bases, v)
+					case *ssa.Slice:
+						walk(x.X)
+					default:
+						bases = append(bases, v)
+					}
+				}
+				walk(st.Val)
+				okF = len(bases) > 0
+				for _, b := range bases {
+					ms, isMk := b.(*ssa.MakeSlice)
+					if !isMk || !outer[0].Header.Dominates(ms.Block()) || ms.Block() == outer[0].Header || !reachableFrom(ms.Block(), outer[0].Header) {
+						okF = false
+					}
+				}
+			}
+			c.obI(rule, st, "scheme-list-fresh-per-alternative", okF, "each alternative's Schemes list is built on a slice allocated inside that alternative's iteration (alternatives never share backing storage, so an earlier alternative's scheme names cannot be overwritten by a later one's)", "the scheme list is built on storage that outlives the iteration (hoisted / re-sliced buffer)")
+		}
+	}
 }
